@@ -111,7 +111,7 @@ func funcExists(cache map[string]*ast.File, fset *token.FileSet, id, pos string)
 }
 
 func tablePart(e *hx.Env, r *hx.Report) {
-	out, err := e.RunDriver("lockset", []string{"table", "violations", "unbalanced", "funcs"})
+	out, err := e.RunDriver("lockset", []string{"table", "violations", "unbalanced", "funcs", "reentrant", "cachewrites"})
 	if err != nil {
 		r.Disagree = append(r.Disagree, hx.Disagreement{Where: "lockset driver", Impl: "-", Model: err.Error(),
 			Replay: e.WriteReplay("C19", "table", "driver", []string{err.Error()}, []string{"table"})})
@@ -140,6 +140,17 @@ func tablePart(e *hx.Env, r *hx.Report) {
 			r.Violations = append(r.Violations, hx.Violation{Signature: "lock-" + sig,
 				What:   "lock not released on every path (or unlocked without being held): " + sig,
 				Replay: e.WriteReplay("C19", "table", "balance-"+sanitize(sig), nil, []string{"table-unbalanced " + sig})})
+		}
+	}
+	for k, what := range map[int]string{4: "call made while holding a lock to a function that acquires it again (deadlock; for a read lock as soon as a writer queues in between)",
+		5: "object obtained from a lister / informer cache is written (shared with every other reader of the cache)"} {
+		if out[k] == "-" {
+			continue
+		}
+		for _, sig := range strings.Fields(out[k]) {
+			r.Hit("table:" + strings.SplitN(sig, ":", 2)[0])
+			r.Violations = append(r.Violations, hx.Violation{Signature: sig, What: what + ": " + sig,
+				Replay: e.WriteReplay("C19", "table", sanitize(sig), nil, []string{"table"})})
 		}
 	}
 	cache := map[string]*ast.File{}
@@ -505,6 +516,8 @@ type loadSummary struct {
 	PairsOf int            `json:"pairs_total"`
 	Panics  []string       `json:"panics"`
 	Note    string         `json:"note"`
+	Wedged  []string       `json:"wedged"`
+	Taken   int            `json:"reserved_taken"`
 }
 
 func loadPart(e *hx.Env, r *hx.Report, rb *raceBin, dur time.Duration, seed int64, only string) {
@@ -566,6 +579,17 @@ func loadPart(e *hx.Env, r *hx.Report, rb *raceBin, dur time.Duration, seed int6
 		}
 		r.Evaluations += total
 		r.Traces += total
+		r.Extra["load_filter_took_reserved_ip"] = sum.Taken
+		seenW := map[string]bool{}
+		for _, w := range sum.Wedged {
+			if seenW[w] {
+				continue
+			}
+			seenW[w] = true
+			r.Violations = append(r.Violations, hx.Violation{Signature: "wedged:load:" + w,
+				What:   "entry point " + w + " did not finish within the liveness bound under the mixed concurrent load (lock wedge): goroutine dump in the replay header",
+				Replay: e.WriteReplay("C19", "load", "wedged-"+sanitize(w), strings.Split(tail(stderr, 6000), "\n"), replayOps)})
+		}
 		for _, p := range sum.Panics {
 			first := strings.SplitN(p, "\n", 2)[0]
 			epn := strings.SplitN(first, ":", 2)[0]
